@@ -29,6 +29,7 @@ class F:
 # uninterpreted real functions (axioms are instantiated where the terms are created)
 SQRT = z3.Function("sqrt", z3.RealSort(), z3.RealSort())
 ROOT6 = z3.Function("root6", z3.RealSort(), z3.RealSort())
+ROOT3 = z3.Function("root3", z3.RealSort(), z3.RealSort())
 FRAC = z3.Function("frac", z3.RealSort(), z3.RealSort())
 SIN = z3.Function("sin", z3.RealSort(), z3.RealSort())
 COS = z3.Function("cos", z3.RealSort(), z3.RealSort())
@@ -219,6 +220,11 @@ def power(a, b, facts):
             return sqrt_term(a, facts)
         if e == Fraction(1, 6):
             return root6_term(a, facts)
+        if e == Fraction(1, 3):
+            x = real(a)
+            r = ROOT3(x)
+            facts.add(z3.And(r * r * r == x, z3.Implies(x >= 0, r >= 0)))
+            return r
     raise Unsupported(f"power with exponent {b!r}")
 
 
